@@ -126,7 +126,13 @@ func genPromMsgs(r *Rng, g *EvGen, n int) []promStep {
 		case 3, 4:
 			steps = append(steps, promStep{K: "c", C: &mocrelay.ClientCloseMsg{SubscriptionID: pick(r, subs)}})
 		case 5, 6:
-			steps = append(steps, promStep{K: "c", C: &mocrelay.ClientEventMsg{Event: g.Event()}})
+			e := g.Event()
+			if r.P(25) {
+				// kinds are int64 on this path (validation sits elsewhere): values that agree modulo 2^16 or 2^32 are
+				// still different label values
+				e.Kind = pick(r, []int64{-1, 65535, 65536, 0, 65537, 1, 131073, 1 << 32, 1<<32 + 1, -65536, -65535})
+			}
+			steps = append(steps, promStep{K: "c", C: &mocrelay.ClientEventMsg{Event: e}})
 		case 7:
 			steps = append(steps, promStep{K: "s", S: mocrelay.NewServerClosedMsg(pick(r, subs), "", "bye")})
 		case 8:
